@@ -261,6 +261,8 @@ pub trait TypedIterable {
         Self: DNSIterable,
     {
         let new_name_len = DNSSector::check_uncompressed_name(name, 0)?;
+        // Owner names are subject to the character policy of the validator
+        Compress::check_compressed_name(name, 0)?;
         let name = &name[..new_name_len];
         if self.parsed_packet().maybe_compressed {
             let (uncompressed, new_offset) = {
